@@ -32,6 +32,8 @@ def _conc(c):
 
 
 def c12_nontrivial(c, i):
+    if c and c[0] == "c12.in":
+        return bool(i) and i[0] == "ok"
     if c and c[0] == "c12.conc":
         return bool(i) and "unstable" not in i and not any(t.startswith("panic") for t in i)
     c, _ = _inner(c)
@@ -43,6 +45,19 @@ def c12_nontrivial(c, i):
 
 
 def c12_classify(c, i):
+    if c and c[0] == "c12.in":
+        mx, cut, fol, inner = int(c[1]), c[2], c[3], c[4]
+        line = c[-1]
+        n = 0 if line == "-" else len(line) // 2
+        d = DECODERS.get(inner, "json" if inner == "c12.jsonl" else inner)
+        rel = "nolimit" if mx == 0 else ("len<max" if n < mx else "len=max" if n == mx else "len=max+1" if n == mx + 1 else "len>max+1")
+        out = ["family=pipeline-in", "in:dec=" + d, "in:" + rel, "in:cutoff=" + cut, "in:following=" + ("none" if fol == "-" else "some"),
+               "in:" + (i[0] if i and i[0] in ("ok", "refused") else "panic" if any(t.startswith("panic") for t in i) else "other")]
+        if i and i[0] == "ok" and "L" in i:
+            # the event carries the cut mark iff a top-level key "cut" (hex 637574) is true
+            toks = i[1:i.index("L")]
+            out.append("in:cutmark=" + ("1" if any(toks[k] == "637574" and toks[k + 1] == "T" for k in range(len(toks) - 1)) else "0"))
+        return out
     if c and c[0] == "c12.conc":
         first, workers, iters, k = _conc(c)
         d = DECODERS.get(first[0], first[0])
